@@ -174,6 +174,15 @@ def c_x_vec_mixed(m, pt, d):
     return ("between", -0.4, x, ub)
 
 
+def c_x_vec_mixed_lb(m, pt, d):
+    # vector-valued two-sided constraint, one of whose LOWER bounds is infinite (a box with a free side)
+    import math
+    x = m.flat(pt.s["x"])
+    n = 2 if d["state"] == "vec2" else (4 if d["state"] == "mat22" else 1)
+    lb = m.const([-math.inf] + [-0.45] * (n - 1)) if n > 1 else -0.45
+    return ("between", lb, x, 1.25)
+
+
 def c_xu_between(m, pt, d):
     return ("between", -0.9, _x0(m, pt) * u0_of(m, pt.s, d), 1.1)
 
